@@ -106,6 +106,21 @@ def run(chk, build):
     cases.insert(0, (["\U0001F600", "é"], [], "pydantic", 10, 0))
     eterms, emeta = [], []
     iterms, imeta = [], []
+    # something else the process did before: generators with DIFFERENT literal options were created (and are still alive).
+    # The options of one generator must not reach another: the cases below are judged as if nothing had happened.
+    try:
+        from json_to_models.dynamic_typing import StringLiteral
+        reg0, _ = pipeline.build_registry([("Root", [{"f": "a"}])], dict(pipeline.DEFAULT_OPTS, rn=RN3))
+        model0 = list(reg0.models)[0]
+        off = {StringLiteral: {StringLiteral.TypeStyle.use_literals: False}}
+        on = {StringLiteral: {StringLiteral.TypeStyle.use_literals: True}}
+        chk.notes["generators_kept_alive"] = 0
+        keep = []
+        for fw0, style0, ml0 in (("base", off, 0), ("dataclasses", off, 0), ("pydantic", off, 0), ("attrs", on, 16)):
+            keep.append(pipeline.generator_class(fw0)(model0, max_literals=ml0, types_style=style0))
+            chk.notes["generators_kept_alive"] += 1
+    except Exception as e:  # noqa
+        chk.notes["generators_kept_alive"] = f"could not construct: {type(e).__name__}: {e}"
     for strings, extra, fw, ml, rep in cases:
         why, code = oracle(strings, extra, fw, ml, rep)
         info = {"strings": strings, "extra": extra, "fw": fw, "max_literals": ml, "repeat": rep}
